@@ -173,3 +173,9 @@ Lemma blind_retry_off var rt : v_retry_recheck var = true -> blind_retry var rt 
 Proof. intros H. unfold blind_retry. rewrite H. destruct rt; reflexivity. Qed.
 Lemma blind_retry_repaired rt : blind_retry repaired rt = false.
 Proof. apply blind_retry_off. reflexivity. Qed.
+
+(* save's size rule: with `if e.deleted` (the code as it is) a stale generation plays no role *)
+Lemma stale_zero_off var b : v_save_deleted_only var = true -> stale_zero var b = false.
+Proof. intros H. unfold stale_zero. rewrite H. reflexivity. Qed.
+Lemma stale_zero_repaired b : stale_zero repaired b = false.
+Proof. reflexivity. Qed.
